@@ -3,7 +3,23 @@ import TTV.Model.ResC17
 import TTV.Spec.C17
 import TTV.Lemmas.ResEmit
 import TTV.Lemmas.TagViews
-/-! # C17 — tags are scoped (work in progress) -/
+/-! # C17 — tags are scoped: test-local changes never leak, run-level changes persist
+
+Theorems over the tree model M-Res (`TTV/Model/Result.lean`), for **every** adapter graph (any depth / fan-out) and
+**every** call history (no bound on length).
+
+* `holds_model_partial`  : the executable spec `Spec.C17.holds` is true of the model's trace (graphs without a stream
+                           pipeline, outside finding `taggerBelowBuffer`)
+* `C17_current`          : `current_tags` of every result / adapter (incl. `ExtendedToStreamDecorator`) after every call = the
+                           stack-of-sets semantics `refCur`; never undefined (D11)
+* `C17_test_local`       : under that semantics a `startTest … stopTest` bracket leaves the context unchanged
+* `C17_observed_partial` : every wrapped result sees at each outcome the reporter's current tags (through
+                           `ThreadsafeForwardingResult` buffers + `_merge_tags`, `MultiTestResult`, decorators, `Tagger`)
+* `C17_merge`            : merging tag changes then applying = applying in sequence (`_merge_tags`)
+* `C17_finding_witness`  : the model reproduces finding `taggerBelowBuffer`
+Not proved (checked by the correspondence only): the `observed` clause through `ExtendedToStreamDecorator` →
+`StreamToExtendedDecorator` / `PlaceHolder`.
+-/
 namespace TTV.Props.C17
 open TTV.Result TTV.ResC17 TTV.Spec.C17 TTV.Lemmas.ResEmit TTV.Lemmas.TagViews TTV.Lemmas.TagSetL
 set_option linter.unusedSimpArgs false
@@ -877,5 +893,33 @@ theorem holds_model_partial (i : Input) (hw : i.shape.wf = true) (hn : i.shape.n
     · right
       simp only [obsScope, Bool.and_eq_true] at hs
       exact C17_observed_partial i.shape hn hc hs.2 i.hist hs.1.1.2 hs.1.2
+
+/-- **C17 (`_merge_tags`).**  Applying the merge of two tag changes is applying them one after the other
+(the second with disjoint `new` / `gone`). -/
+theorem C17_merge (s : TagSet) (a : TagSet × TagSet) (n g : TagSet) (h : n &&& g = 0) :
+    TagSet.change s (mergeTags a (n, g)).1 (mergeTags a (n, g)).2 = TagSet.change (TagSet.change s a.1 a.2) n g :=
+  change_merge s a n g h
+
+/-! ## known finding and non-vacuity -/
+/-- witness of finding `taggerBelowBuffer`: `ThreadsafeForwardingResult(Tagger(gone={0}, extended))`, run-level tag 0 -/
+def witness : Input :=
+  { shape := .tfr (.etod (.tagger 0 1 (.sink .ext))),
+    hist := [.startTestRun, .tags 1 0, .startTest 1, .add .success 1 .none, .stopTest 1] }
+
+/-- inside the class the model reproduces the defect: the extended result sees tag 0, the specification says none -/
+theorem C17_finding_witness :
+    taggerBelowBuffer witness = true ∧ obsScope witness = true ∧ cObserved witness (model witness) = false ∧
+    (model witness).seen = [[(1, 1)]] ∧ specSeen witness.shape witness.hist = [[(1, 0)]] := by
+  decide
+
+/-- not vacuous: a run-level tag, a test-local change and a late change through
+`MultiTestResult(ThreadsafeForwardingResult(extended), Tagger(TestResult))` -/
+example :
+    let i : Input := { shape := .multi [.etod (.tfr (.etod (.sink .ext))), .etod (.tagger 4 0 (.tt false))],
+                       hist := [.startTestRun, .tags 1 0, .startTest 7, .tags 2 1, .add .success 7 .none, .tags 8 0,
+                                .stopTest 7, .add .skip 8 (.reason []), .stopTest 8] }
+    obsScope i = true ∧ taggerBelowBuffer i = false ∧
+    model i = { cur := [0, 1, 1, 2, 2, 10, 1, 1, 1], seen := [[(7, 2), (8, 1)], [(7, 6), (8, 1)]] } := by
+  decide
 
 end TTV.Props.C17
